@@ -1292,18 +1292,18 @@ func runGraph(c *Case) lib.Result {
 					s.mu.Lock()
 					n := len(s.evts)
 					s.mu.Unlock()
-					if n >= want {
-						break
-					}
-					if n != last {
-						last, lastChange = n, time.Now()
-					}
 					rr.mu.Lock()
 					bodies := 0
 					for _, recs := range rr.execs {
 						bodies += len(recs)
 					}
 					rr.mu.Unlock()
+					if n >= want && bodies >= wantBodies {
+						break
+					}
+					if n != last {
+						last, lastChange = n, time.Now()
+					}
 					if bodies >= wantBodies && time.Since(lastChange) > 2*time.Second {
 						break
 					}
